@@ -7,7 +7,7 @@ rate check makes <= max attempts with <= `concurrent` sockets open and sends not
 --skip-rate-test, for a client audit or without a DH key exchange; the DHEat attack and the interactive rate
 test are entered only when requested).
 Tie: (a) whole audits through the real main() over scripted targets whose n-th probe connection follows a plan
-(refused / no banner / unreadable KEXINIT / no group / reply garbage / reply ok) — the per-connection log
+(refused / no banner / unreadable KEXINIT / no group / reply garbage / no reply: close or stall / reply ok) — the per-connection log
 (established, SSH message types received by the target, closed) vs. the model's `footprint.audit`;
 (b) the real DHEat._dh_rate_test driven by a scripted clock / connect / select vs. `footprint.rate`.
 Oracle (independent of the model): message types on every connection form one of the five allowed shapes (no
@@ -83,6 +83,10 @@ class PlanNet(fn.FakeNet):
         elif entry == 'x':
             hostkeys = {t: ('raw', WRONG_TYPE) for t in self.keys}
             # group-exchange reply after GEX_INIT: garbage as well
+        elif entry == 'n':
+            hostkeys = _Always(('close',))      # the *_INIT message is never answered: the connection is closed
+        elif entry == 's':
+            hostkeys = _Always(('stall',))      # … or the server just goes quiet
         srv = fn.Server(banner=self.banner, kexinit_payload=self.payload, hostkeys=hostkeys, gex=gex, **kw)
         srv.entry = entry
         if entry in ('x', 'g'):
@@ -122,7 +126,7 @@ def gen_scenario(r, master_types):
         keys = [k for k in ['rsa-sha2-512', 'rsa-sha2-256', 'ssh-rsa', 'ssh-ed25519'] if r.random() < 0.8] or ['ssh-ed25519']
     openssh = r.random() < 0.5
     n = r.choice([0, 0, 1, 2, 4, 8, 14])
-    plan = [r.choice('XXXXXXXxxgkbc') for _ in range(n)]
+    plan = [r.choice('XXXXXXXxxgkbcnnss') for _ in range(n)]
     style = r.choice(sorted(STYLES))
     M = sorted(r.sample(UNIVERSE, r.randint(0, 4)))
     return {'kex': kex, 'keys': keys, 'openssh': openssh, 'plan': plan, 'style': style, 'M': M}
@@ -325,7 +329,9 @@ def run(ctx):
              {'kex': [SHA256], 'keys': ['ssh-rsa', 'rsa-sha2-256', 'rsa-sha2-512'], 'openssh': False, 'plan': ['x', 'x', 'x'], 'style': 'strict', 'M': []},
              {'kex': ['sntrup761x25519-sha512@openssh.com'], 'keys': ['ssh-ed25519'], 'openssh': True, 'plan': ['c'], 'style': 'strict', 'M': [4096]},
              {'kex': ['curve25519-sha256', SHA256], 'keys': ['ssh-ed25519', 'ssh-rsa'], 'openssh': True, 'plan': ['X', 'X', 'c'], 'style': 'roundup', 'M': [8192]},
-             {'kex': ['curve25519-sha256', SHA1, SHA256], 'keys': ['ssh-ed25519'], 'openssh': False, 'plan': ['X', 'X', 'g', 'b', 'X', 'X', 'X', 'X', 'X', 'k'], 'style': 'strict', 'M': []}]
+             {'kex': ['curve25519-sha256', SHA1, SHA256], 'keys': ['ssh-ed25519'], 'openssh': False, 'plan': ['X', 'X', 'g', 'b', 'X', 'X', 'X', 'X', 'X', 'k'], 'style': 'strict', 'M': []},
+             {'kex': ['curve25519-sha256'], 'keys': ['ssh-rsa', 'ssh-ed25519', 'ecdsa-sha2-nistp256', 'ssh-ed448'], 'openssh': True, 'plan': ['s', 'n', 's', 'n'], 'style': 'strict', 'M': []},
+             {'kex': [SHA256], 'keys': ['rsa-sha2-512', 'ssh-ed25519'], 'openssh': True, 'plan': ['n', 's', 'n', 's', 'n', 's'], 'style': 'openssh', 'M': [2048, 4096]}]
     for _ in range(ctx.scale(120, 2500)):
         scs.append(gen_scenario(r, master_types))
     for sc in fixed + scs:
